@@ -4,8 +4,10 @@
 //!   vmc item   <Cxx> <tier> <idx>               child: one work item inside its own mount namespace + tmpfs jail
 //!   vmc replay <Cxx> <file>                     re-run exactly one recorded execution
 
+mod capimc;
 mod ev;
 mod gen;
+mod handlemc;
 mod lookup;
 mod mutmc;
 mod pt;
@@ -27,6 +29,8 @@ fn n_items(prop: &str, tier: &str) -> usize {
         "C04" => lookup::n_items(tier) + mutmc::n_items(prop, tier),
         "C12" | "C13" => mutmc::n_items(prop, tier) + sysprops::n_items(prop, tier),
         "C14" => mutmc::n_items(prop, tier),
+        "C09" => handlemc::n_items(tier),
+        "C17" => capimc::n_items(tier),
         "C02" | "C03" | "C05" | "C10" | "C11" => sysprops::n_items(prop, tier),
         _ => 0,
     }
@@ -38,6 +42,8 @@ fn run_item(prop: &str, tier: &str, idx: usize, only: Option<&Value>) -> sys::MR
         "C04" => { let nl = lookup::n_items(tier); let engine = only.and_then(|o| o["engine"].as_str().map(|s| s.to_string())); if engine.as_deref() == Some("mutmc") || (engine.is_none() && idx >= nl) { mutmc::run_item(prop, tier, if engine.is_some() { idx } else { idx - nl }, only) } else { lookup::run_item(prop, tier, idx, only) } }
         "C12" | "C13" => { let nm = mutmc::n_items(prop, tier); let engine = only.and_then(|o| o["engine"].as_str().map(|s| s.to_string())); if engine.as_deref() == Some("sysmc") { sysprops::run_item(prop, tier, idx, only) } else if engine.as_deref() == Some("mutmc") || idx < nm { mutmc::run_item(prop, tier, idx, only) } else { sysprops::run_item(prop, tier, idx - nm, only) } }
         "C14" => mutmc::run_item(prop, tier, idx, only),
+        "C09" => handlemc::run_item(tier, idx, only),
+        "C17" => capimc::run_item(tier, idx, only),
         "C02" | "C03" | "C05" | "C10" | "C11" => sysprops::run_item(prop, tier, idx, only),
         _ => sys::mach(format!("no engine for {}", prop)),
     }
@@ -49,6 +55,8 @@ fn report(prop: &str, tier: &str) -> Report {
         "C04" => { let mut r = lookup::report(prop, tier); let m = mutmc::report(prop, tier); r.rule = format!("(lookups) {} || (mutating operations) {}", r.rule, m.rule); r }
         "C12" | "C13" => { let mut r = mutmc::report(prop, tier); let c = sysprops::report(prop, tier); r.rule = format!("(sequential) {} || (concurrent) {}", r.rule, c.rule); r.assumptions.extend(c.assumptions); r }
         "C14" => mutmc::report(prop, tier),
+        "C09" => handlemc::report(tier),
+        "C17" => capimc::report(tier),
         "C02" | "C03" | "C05" | "C10" | "C11" => sysprops::report(prop, tier),
         _ => unreachable!(),
     }
